@@ -15,6 +15,7 @@ import (
 
 	"github.com/whatap/golib/lang"
 	"github.com/whatap/golib/lang/pack"
+	wio "github.com/whatap/golib/io"
 	"github.com/whatap/golib/lang/value"
 	wnet "github.com/whatap/golib/net"
 	"github.com/whatap/golib/net/oneway"
@@ -298,6 +299,27 @@ func runBody(c gpack.Case) *pbt.Result {
 		}
 		return pbt.Fail("%s: ToBytesPack differs from the reference encoder of the protocol layout at offset %d (golib %d bytes …%x, reference %d bytes …%x)", c.Type, k, len(got), clip(got, k), len(want), clip(want, k))
 	}
+	// an agent process also decodes (control packs, its own packs in tests and relays); what it decoded must not show up in
+	// what it encodes afterwards: the pack is decoded here, and the packs of the following cases are encoded after that
+	func() {
+		defer func() { recover() }() // whether decoding works is C03's business
+		pack.ToPack(append([]byte(nil), got...))
+	}()
+	// values constructed after that are what their constructor was asked for (the reference encoding of the literal)
+	for _, pr := range []struct {
+		v    value.Value
+		want *ref.V
+	}{{value.NewBoolValue(false), &ref.V{T: ref.TBool, I: 0}}, {value.NewBoolValue(true), &ref.V{T: ref.TBool, I: 1}},
+		{value.NewDecimalValue(0), &ref.V{T: ref.TDecimal, I: 0}}, {value.NewTextValue(""), &ref.V{T: ref.TText}}, {value.NewNullValue(), &ref.V{T: ref.TNull}}} {
+		o := wio.NewDataOutputX()
+		value.WriteValue(o, pr.v)
+		if exp := ref.ValueBytes(pr.want); !bytes.Equal(o.ToByteArray(), exp) {
+			return pbt.Fail("after a %s was decoded, a freshly constructed value (type code %d, constructor argument %d) encodes as %x; the protocol encoding of that literal is %x", c.Type, pr.want.T, pr.want.I, o.ToByteArray(), exp)
+		}
+	}
+	if again := pack.ToBytesPack(p); !bytes.Equal(again, want) {
+		return pbt.Fail("%s: after its own encoding was decoded (into another object), encoding the pack again gives other bytes than the reference (%d vs %d bytes)", c.Type, len(again), len(want))
+	}
 	hf := "header=short"
 	if h := hdr(p); h.Okind|h.Onode != 0 {
 		hf = "header=marker9"
@@ -318,7 +340,7 @@ func clip(b []byte, k int) []byte {
 
 var specBody = pbt.Register(pbt.Spec[gpack.Case]{
 	Prop: "C05", Name: "body-vs-reference",
-	Rule:  "packs of the eight covered types (tag-count, log-sink, text, parameter, event, zip, hit-map, counter) with every optional section present/absent, both header forms, project codes in every decimal class; expected bytes = 2-byte type + body from an independent encoder of the protocol layout fed by a view taken through exported fields and public accessors; non-trivial = at least one optional section / map entry / record present; distinct by bytes",
+	Rule:  "packs of the eight covered types (tag-count, log-sink, text, parameter, event, zip, hit-map, counter) with every optional section present/absent, both header forms, project codes in every decimal class; expected bytes = 2-byte type + body from an independent encoder of the protocol layout fed by a view taken through exported fields and public accessors; every encoding is then decoded, so that each pack is encoded in a process that has decoded the packs before it; non-trivial = at least one optional section / map entry / record present; distinct by bytes",
 	Quick: 3200, Thorough: 160000,
 	Draw: func(t *rapid.T) gpack.Case {
 		c := gpack.Case{Type: rapid.SampledFrom(bodyTypes).Draw(t, "type"), Seed: rapid.Uint64().Draw(t, "seed")}
